@@ -42,7 +42,7 @@ def tokenize(src):
 class P:
     """recursive-descent parser for the statement / expression subset"""
 
-    TYPES = {"Py_UCS4", "Token", "int", "unsigned", "YYCTYPE", "bool", "void", "mwtok"}
+    TYPES = {"Py_UCS4", "Token", "int", "unsigned", "YYCTYPE", "bool", "void", "mwtok", "size_t", "long", "const", "auto"}
 
     def __init__(self, toks, defines, pointers, members, enum):
         self.t = toks
@@ -367,6 +367,26 @@ class Gen:
             if fn[0] == "attr" and fn[2] == "push_back":
                 pre.append("%s.append(%s)" % (self.ex(fn[1], pre), self.ex(e[2][0], pre)))
                 return "None"
+            if fn[0] == "attr" and fn[2] == "begin" and not e[2]:
+                return "0"  # iterators of the token vector are indices
+            if fn[0] == "attr" and fn[2] == "end" and not e[2]:
+                return "len(%s)" % self.ex(fn[1], pre)
+            if fn[0] == "attr" and fn[2] == "erase" and len(e[2]) == 1:
+                pre.append("del %s[%s]" % (self.ex(fn[1], pre), self.ex(e[2][0], pre)))
+                return "None"
+            if fn[0] == "attr" and fn[2] == "erase" and len(e[2]) == 2:
+                pre.append("del %s[%s:%s]" % (self.ex(fn[1], pre), self.ex(e[2][0], pre), self.ex(e[2][1], pre)))
+                return "None"
+            if fn[0] == "attr" and fn[2] == "insert" and len(e[2]) == 2:
+                pre.append("%s.insert(%s, %s)" % (self.ex(fn[1], pre), self.ex(e[2][0], pre), self.ex(e[2][1], pre)))
+                return "None"
+            if fn[0] == "attr" and fn[2] == "pop_back" and not e[2]:
+                pre.append("%s.pop()" % self.ex(fn[1], pre))
+                return "None"
+            if fn[0] == "attr" and fn[2] == "back" and not e[2]:
+                return "%s[-1]" % self.ex(fn[1], pre)
+            if fn[0] == "attr" and fn[2] == "empty" and not e[2]:
+                return "(len(%s) == 0)" % self.ex(fn[1], pre)
             if fn[0] == "name" and fn[1] in ("found", "bol", "eol", "newline"):
                 return "self.%s(%s)" % (fn[1], ", ".join(self.ex(a, pre) for a in e[2]))
             raise TranspileError("unsupported call %r" % (fn,))
